@@ -444,6 +444,7 @@ func (rs *RelationService) CreateTable(r *Relation, tableName string) error {
 	if err := rs.createTable(r, tableName); err != nil {
 		return err
 	}
+	verifPoint("ddl.changed", 0)
 	return rs.fs.flushPages()
 }
 
